@@ -697,35 +697,8 @@ func txn2Closure(c *Ctx, f *ssa.Function, full bool) {
 		}
 		return true
 	}
-	keyN := c.KeyAt(f, "signal.Notify(ch, action.Signals...)")
-	var notify *ssa.Call
-	for _, call := range p.CallsNamed(f, "os/signal.Notify") {
-		if nc, ok := call.(*ssa.Call); ok && len(nc.Call.Args) == 2 {
-			sigs := false
-			for _, o := range core.Origins(nc.Call.Args[1], true) {
-				if g, ok := core.Addr(o).(*ssa.Global); ok && g != nil && g.Name() == "Signals" && g.Pkg != nil && core.Short(g.Pkg.Pkg.Path()) == "lib/action" {
-					sigs = true
-				}
-			}
-			if sigs {
-				notify = nc
-			}
-		}
-	}
-	var chCell ssa.Value
-	switch {
-	case notify == nil:
-		c.Bad(keyN, c.FnPos(f), "signal.Notify is not called with action.Signals: SIGINT/SIGTERM/SIGQUIT would kill the process without running the deferred rollback")
-	case !domAll(notify):
-		c.Bad(keyN, c.Pos(notify), "signal.Notify does not dominate every call that can execute statements: a signal arriving earlier kills the process without the deferred rollback")
-	default:
-		c.Ok(keyN, c.Pos(notify), "called with action.Signals before any statement can execute")
-		chCell = core.Addr(core.Strip(notify.Call.Args[0]))
-		if chCell == nil {
-			chCell = core.Strip(notify.Call.Args[0])
-		}
-	}
 	// the context handed to the action and its cancel function
+	keyN := c.KeyAt(f, "signal.Notify(ch, action.Signals...)")
 	keyG := c.KeyAt(f, "goroutine: signal -> cancel of the action's context")
 	var ctxs []ssa.Value
 	for _, u := range execCalls {
@@ -745,14 +718,79 @@ func txn2Closure(c *Ctx, f *ssa.Function, full bool) {
 		}
 		withCancel = call
 	}
+	var cancelV ssa.Value
+	if ctxOK && withCancel != nil {
+		cancelV = txnExtract(withCancel, 1)
+	}
+	// where the signal handling lives: the closure itself, or a private helper of
+	// it that is handed the cancel function (followed for two levels)
+	scopes := txn2SignalScopes(p, f, cancelV)
+	// domScope: the instruction of the scope is executed before every call of the
+	// closure that can execute statements — it dominates them (closure), or the
+	// call of the helper does and no path through the helper(s) returns without it
+	domScope := func(sc txn2Scope, in ssa.Instruction) bool {
+		if len(sc.chain) == 0 {
+			return domAll(in)
+		}
+		if !domAll(sc.chain[0]) {
+			return false
+		}
+		for _, link := range sc.chain[1:] {
+			if !txn2OnEveryPath(link) {
+				return false
+			}
+		}
+		return txn2OnEveryPath(in)
+	}
+	var notify *ssa.Call
+	var scope txn2Scope
+	for _, sc := range scopes {
+		for _, call := range p.CallsNamed(sc.fn, "os/signal.Notify") {
+			if nc, ok := call.(*ssa.Call); ok && len(nc.Call.Args) == 2 {
+				sigs := false
+				for _, o := range core.Origins(nc.Call.Args[1], true) {
+					if g, ok := core.Addr(o).(*ssa.Global); ok && g != nil && g.Name() == "Signals" && g.Pkg != nil && core.Short(g.Pkg.Pkg.Path()) == "lib/action" {
+						sigs = true
+					}
+				}
+				if sigs {
+					notify, scope = nc, sc
+				}
+			}
+		}
+		if notify != nil {
+			break
+		}
+	}
+	where := ""
+	if notify != nil && len(scope.chain) > 0 {
+		c.Touch(scope.fn)
+		where = " (in " + p.FnRef(scope.fn) + ", which only this function calls and which is handed the cancel function)"
+	}
+	var chCell ssa.Value
+	switch {
+	case notify == nil:
+		c.Bad(keyN, c.FnPos(f), "signal.Notify is not called with action.Signals: SIGINT/SIGTERM/SIGQUIT would kill the process without running the deferred rollback")
+	case !domScope(scope, notify):
+		c.Bad(keyN, c.Pos(notify), "signal.Notify"+where+" does not dominate every call that can execute statements: a signal arriving earlier kills the process without the deferred rollback")
+	default:
+		c.Ok(keyN, c.Pos(notify), "called with action.Signals before any statement can execute"+where)
+		chCell = core.Addr(core.Strip(notify.Call.Args[0]))
+		if chCell == nil {
+			chCell = core.Strip(notify.Call.Args[0])
+		}
+	}
 	if !ctxOK || withCancel == nil {
 		c.Bad(keyG, c.FnPos(f), "the calls that execute statements do not all receive the context returned by one context.WithCancel call: a signal could not cancel them")
 		return
 	}
-	cancelV := txnExtract(withCancel, 1)
+	if notify == nil {
+		scope = scopes[0]
+	}
+	cancelV = scope.cancel
 	found := ""
 	good := false
-	for _, call := range core.Calls(f) {
+	for _, call := range core.Calls(scope.fn) {
 		g, ok := call.(*ssa.Go)
 		if !ok {
 			continue
@@ -824,7 +862,7 @@ func txn2Closure(c *Ctx, f *ssa.Function, full bool) {
 			found = "the goroutine receives the signal but a path ends without calling the cancel function of the action's context"
 			continue
 		}
-		if !domAll(g) {
+		if !domScope(scope, g) {
 			found = "the signal goroutine is not started before every call that can execute statements"
 			continue
 		}
@@ -904,6 +942,69 @@ func txn2ContainerOwned(p *core.Prog, g *ssa.Function, recv ssa.Value, at ssa.In
 		return "the helper " + p.FnRef(g) + " receives the container but has no caller in the program", ""
 	}
 	return "", where
+}
+
+// txn2Scope: a function in which the signal handling of the closure may live.
+type txn2Scope struct {
+	fn     *ssa.Function
+	chain  []*ssa.Call // the calls that lead from the closure to fn (none: the closure itself)
+	cancel ssa.Value   // the cancel function as fn sees it: the WithCancel result, or fn's parameter
+}
+
+// txn2SignalScopes: the closure, and the private helpers it hands the cancel
+// function to — same package, a declared function with a body, called statically
+// and by nobody else than the scope above it, with the cancel function (directly
+// or through a local cell that holds nothing else) as an argument.
+func txn2SignalScopes(p *core.Prog, f *ssa.Function, cancelV ssa.Value) []txn2Scope {
+	out := []txn2Scope{{fn: f, cancel: cancelV}}
+	for i := 0; i < len(out); i++ {
+		sc := out[i]
+		if sc.cancel == nil || len(sc.chain) >= 2 {
+			continue
+		}
+		for _, call := range core.Calls(sc.fn) {
+			cc, ok := call.(*ssa.Call)
+			if !ok || cc.Call.IsInvoke() {
+				continue
+			}
+			h := core.StaticCallee(cc)
+			if h == nil || h.Blocks == nil || h.Parent() != nil || core.FnPkg(h) != core.FnPkg(f) || !txn2OnlyCalledFrom(p, h, sc.fn) {
+				continue
+			}
+			for j, a := range cc.Call.Args {
+				if j < len(h.Params) && txnThroughCell(a) == sc.cancel {
+					chain := append(append([]*ssa.Call{}, sc.chain...), cc)
+					out = append(out, txn2Scope{fn: h, chain: chain, cancel: h.Params[j]})
+					break
+				}
+			}
+		}
+	}
+	return out
+}
+
+// txn2OnlyCalledFrom: every call-graph edge into h is a static call made by caller.
+func txn2OnlyCalledFrom(p *core.Prog, h, caller *ssa.Function) bool {
+	edges := p.RealCallers(h)
+	if len(edges) == 0 {
+		return false
+	}
+	for _, e := range edges {
+		if e.Caller.Func != caller || e.Site == nil || core.StaticCallee(e.Site) != h {
+			return false
+		}
+	}
+	return true
+}
+
+// txn2OnEveryPath: no path from the entry of the function to a return avoids in.
+func txn2OnEveryPath(in ssa.Instruction) bool {
+	for _, x := range core.ExitsFromEntry(in.Parent(), func(y ssa.Instruction) bool { return y == in }, nil) {
+		if _, isRet := x.(*ssa.Return); isRet {
+			return false
+		}
+	}
+	return true
 }
 
 // txn2OuterCell maps a value inside closure k (started by `go`) that is a load
